@@ -1,4 +1,5 @@
 (* C15 -- incomplete mode.  Over the regenerated grammar (Gen/GenGrammar.v) and the PEG interpreter. *)
+From SV Require HandLex GenLexers LexFacts.
 From SV Require Import Peg PegFacts NonNull Bound Incomplete GenGrammar.
 From Coq Require Import Arith.
 Local Open Scope nat_scope.
@@ -72,3 +73,8 @@ Proof.
   - apply Nat.ltb_lt. vm_compute. reflexivity.
 Qed.
 End Oracles.
+
+(* the two oracle hypotheses, proved for the token lexers written by hand (Gen/GenLexers.v) *)
+Theorem C15_token_lexers_consume_and_stay_inside : forall veto l w n,
+  In l GenLexers.token_lexers -> HandLex.lex veto l w = Some n -> 1 <= n <= length w.
+Proof. exact LexFacts.token_lexer_consumes. Qed.
